@@ -297,6 +297,43 @@ theorem conn_setter_frame (T : TimeOps τ) (c : Conn τ) (op : COp τ) :
   | setInplace b => right; cases hasDelay <;> simp [Conn.step, Conn.report, Synapse.step, COp.attr]
   | setDtype d => right; cases hasDelay <;> simp [Conn.step, Conn.report, Synapse.step, COp.attr]
 
+/-! ## The property, all component kinds together -/
+
+/-- **C14, reachability.**  For synapses (any number of records), neurons (any number of batched
+tensors), reducers and connections (forwarded setters and synapse replacement): any finite
+sequence of valid setter calls from a constructed component ends in exactly the state — reported
+getters and the size and temporal configuration of every internal record — that the constructor
+builds for the configuration in which every attribute holds the value last assigned to it. -/
+theorem setters_reach_constructor (T : TimeOps τ) :
+    (∀ (ops : List (COp τ)) (c : SynCfg τ), (∀ op ∈ ops, SynCfg.validOp T op = true) →
+      (Synapse.construct T c).run T ops = Synapse.construct T (ops.foldl SynCfg.assign c)) ∧
+    (∀ (ops : List (COp τ)) (c : NeuCfg τ), (∀ op ∈ ops, NeuCfg.validOp T op = true) →
+      (Neuron.construct c).run T ops = Neuron.construct (ops.foldl NeuCfg.assign c)) ∧
+    (∀ (ops : List (COp τ)) (c : RedCfg τ), (∀ op ∈ ops, RedCfg.validOp T op = true) →
+      (Reducer.construct T c).run T ops = Reducer.construct T (ops.foldl RedCfg.assign c)) ∧
+    (∀ (ops : List (COp τ)) (c : SynCfg τ) (hd : Bool), (∀ op ∈ ops, connValidOp T op = true) →
+      (Conn.mk (Synapse.construct T c) hd).run T ops =
+        Conn.mk (Synapse.construct T (ops.foldl connAssign c)) hd) :=
+  ⟨synapse_setters_reach_constructor T, neuron_setters_reach_constructor T,
+   reducer_setters_reach_constructor T, conn_setters_reach_constructor T⟩
+
+/-- **C14, frame.**  From ANY state of any component kind, one assignment (valid or refused)
+leaves every other reported attribute unchanged. -/
+theorem setter_frame (T : TimeOps τ) :
+    (∀ (s : Synapse τ) (op : COp τ), Report.sameExcept op.attr s.report (s.step T op).1.report) ∧
+    (∀ (s : Neuron τ) (op : COp τ), Report.sameExcept op.attr s.report (s.step T op).1.report) ∧
+    (∀ (s : Reducer τ) (op : COp τ), Report.sameExcept op.attr s.report (s.step T op).1.report) ∧
+    (∀ (c : Conn τ) (op : COp τ), Report.sameExcept op.attr c.report (c.step T op).1.report) :=
+  ⟨synapse_setter_frame T, neuron_setter_frame T, reducer_setter_frame T, conn_setter_frame T⟩
+
+/-- the configuration read back after a valid assignment sequence is the assigned one -/
+theorem synapse_reports_back (T : TimeOps τ) (ops : List (COp τ)) (c : SynCfg τ)
+    (hv : ∀ op ∈ ops, SynCfg.validOp T op = true) :
+    ((Synapse.construct T c).run T ops).report =
+      (let c' := ops.foldl SynCfg.assign c
+       ⟨c'.dt, some c'.delay, some c'.batch, none, some c'.inplace, c'.dtype⟩) := by
+  rw [synapse_setters_reach_constructor T ops c hv, synapse_reports_config]
+
 /-! ## The record summary is what the C13 machine computes -/
 
 /-- A temporal setter of the C13 record machine that returns leaves the record with the dt /
